@@ -50,7 +50,7 @@ func main() {
 		typed()
 		return
 	}
-	if *tr == "lockwrap" || *tr == "getter" {
+	if *tr == "lockwrap" || *tr == "getter" || *tr == "rangeidx" {
 		typed2()
 		return
 	}
@@ -243,6 +243,37 @@ func sites(fset *token.FileSet, f *ast.File, src []byte, rel string) []edit {
 				return true
 			}
 			eds = append(eds, edit{off(b.Pos()), off(b.End()), txt(b.Y) + " " + op + " " + txt(b.X)})
+			return true
+		})
+	case "demorgan":
+		// the top-most && / || of an expression: X && Y  →  !(!(X) || !(Y))
+		inner := map[ast.Expr]bool{}
+		ast.Inspect(f, func(n ast.Node) bool {
+			b, ok := n.(*ast.BinaryExpr)
+			if !ok || (b.Op != token.LAND && b.Op != token.LOR) {
+				return true
+			}
+			for _, side := range []ast.Expr{b.X, b.Y} {
+				e := side
+				for {
+					pe, isP := e.(*ast.ParenExpr)
+					if !isP {
+						break
+					}
+					e = pe.X
+				}
+				if sb, ok := e.(*ast.BinaryExpr); ok && (sb.Op == token.LAND || sb.Op == token.LOR) {
+					inner[sb] = true
+				}
+			}
+			if inner[b] || !pick(key(b)) {
+				return true
+			}
+			op := "||"
+			if b.Op == token.LOR {
+				op = "&&"
+			}
+			eds = append(eds, edit{off(b.Pos()), off(b.End()), "!(!(" + txt(b.X) + ") " + op + " !(" + txt(b.Y) + "))"})
 			return true
 		})
 	case "reverse":
@@ -612,6 +643,81 @@ func typed2() {
 					name := kind + up(fv.Name()) + "Q"
 					needs[owner.Obj().Name()+"."+name] = need{owner, fv, kind}
 					edits[fn] = append(edits[fn], edit{off(inner.X.End()), off(sel.End()), "." + name})
+				case "rangeidx":
+					rs, ok := n.(*ast.RangeStmt)
+					if !ok || rs.Tok != token.DEFINE || rs.Key == nil {
+						return true
+					}
+					xid, ok := rs.X.(*ast.Ident)
+					if !ok {
+						return true
+					}
+					if _, isSlice := p.TypesInfo.TypeOf(rs.X).Underlying().(*types.Slice); !isSlice {
+						return true
+					}
+					xobj := p.TypesInfo.Uses[xid]
+					if _, isVar := xobj.(*types.Var); !isVar || xobj.Parent() == p.Types.Scope() {
+						return true
+					}
+					kid, _ := rs.Key.(*ast.Ident)
+					if kid == nil {
+						return true
+					}
+					var vid *ast.Ident
+					if rs.Value != nil {
+						vid, _ = rs.Value.(*ast.Ident)
+						if vid == nil {
+							return true
+						}
+					}
+					// the sliced variable and the key must not be written (or have their address
+					// taken) in the body
+					bad := false
+					keyObj := p.TypesInfo.Defs[kid]
+					ast.Inspect(rs.Body, func(m ast.Node) bool {
+						touch := func(e ast.Expr) {
+							if id, ok := e.(*ast.Ident); ok {
+								if o := p.TypesInfo.Uses[id]; o != nil && (o == xobj || (keyObj != nil && o == keyObj)) {
+									bad = true
+								}
+							}
+						}
+						switch st := m.(type) {
+						case *ast.AssignStmt:
+							for _, l := range st.Lhs {
+								touch(l)
+							}
+						case *ast.IncDecStmt:
+							touch(st.X)
+						case *ast.UnaryExpr:
+							if st.Op == token.AND {
+								touch(st.X)
+							}
+						}
+						return true
+					})
+					// (the value variable must not be declared again at the top of the body: `t := t`)
+					for _, st := range rs.Body.List {
+						if as, ok := st.(*ast.AssignStmt); ok && as.Tok == token.DEFINE {
+							for _, l := range as.Lhs {
+								if id, ok := l.(*ast.Ident); ok && ((vid != nil && id.Name == vid.Name) || id.Name == kid.Name) {
+									bad = true
+								}
+							}
+						}
+					}
+					if bad || !pick(fmt.Sprintf("%s:%d", fn, off(rs.Pos()))) {
+						return true
+					}
+					key := kid.Name
+					if key == "_" {
+						key = fmt.Sprintf("iQ%d", off(rs.Pos()))
+					}
+					head := fmt.Sprintf("for %s := 0; %s < len(%s); %s++ {", key, key, xid.Name, key)
+					if vid != nil && vid.Name != "_" {
+						head += fmt.Sprintf("\n%s := %s[%s]", vid.Name, xid.Name, key)
+					}
+					edits[fn] = append(edits[fn], edit{off(rs.Pos()), off(rs.Body.Lbrace) + 1, head})
 				case "getter":
 					sel, ok := n.(*ast.SelectorExpr)
 					if !ok {
